@@ -55,7 +55,7 @@ pub struct GateState {
     pub release: Vec<u32>,
 }
 
-fn read_line(s: &mut TcpStream, buf: &mut Vec<u8>) -> Option<String> {
+fn read_line<S: Read>(s: &mut S, buf: &mut Vec<u8>) -> Option<String> {
     // reads up to and including CRLF from the buffered prefix / socket
     loop {
         if let Some(p) = buf.windows(2).position(|w| w == b"\r\n") {
@@ -71,7 +71,7 @@ fn read_line(s: &mut TcpStream, buf: &mut Vec<u8>) -> Option<String> {
     }
 }
 
-fn read_n(s: &mut TcpStream, buf: &mut Vec<u8>, n: usize) -> Option<Vec<u8>> {
+fn read_n<S: Read>(s: &mut S, buf: &mut Vec<u8>, n: usize) -> Option<Vec<u8>> {
     while buf.len() < n {
         let mut tmp = [0u8; 65536];
         match s.read(&mut tmp) {
@@ -84,7 +84,7 @@ fn read_n(s: &mut TcpStream, buf: &mut Vec<u8>, n: usize) -> Option<Vec<u8>> {
     Some(out)
 }
 
-fn read_request(s: &mut TcpStream, conn: u64, seqc: &AtomicU64) -> Option<Seen> {
+pub fn read_request<S: Read + Write>(s: &mut S, conn: u64, seqc: &AtomicU64) -> Option<Seen> {
     let mut buf = vec![];
     let rl = read_line(s, &mut buf)?;
     let mut parts = rl.splitn(3, ' ');
